@@ -613,7 +613,10 @@ class ActorSim:
                 self.back.acquire()
         for t in self.threads:
             if t.os_thread is not None:
-                t.os_thread.join(timeout=2.0)
+                # wait until the thread has really unwound: on a heavily loaded machine two seconds were not always enough, and a thread of the
+                # previous execution that is still running while the next one starts makes executions depend on wall-clock timing (seen
+                # once as a Divergence while replaying a prefix in the thorough tier of C09 under a load average above 30)
+                t.os_thread.join(timeout=60.0)
         self.stopped = True
 
 
